@@ -130,7 +130,7 @@ pub fn op_strat(refusable: bool) -> BoxedStrategy<Op> {
         1 => (ch(), 0u8..4).prop_map(|(ch, kind)| Op::MutualClose { ch, kind }),
         3 => (0u8..4, 0u8..3, any::<bool>()).prop_map(|(h, amt, keysend)| Op::Approve { h, amt, keysend }),
         1 => (ch(), 0u8..4).prop_map(|(ch, h)| Op::Fulfill { ch, h }),
-        3 => (0u8..4).prop_map(|kind| Op::Onchain { kind }),
+        5 => prop_oneof![5 => Just(0u8), 1 => Just(1u8), 1 => Just(2u8), 1 => Just(3u8)].prop_map(|kind| Op::Onchain { kind }),
         4 => (0u8..10).prop_map(|kind| Op::Allowlist { kind }),
         4 => prop_oneof![6 => Just(0u8), 2 => Just(1u8), 2 => Just(2u8)].prop_map(|fault| Op::AddBlock { fault }),
         2 => prop_oneof![5 => Just(0u8), 2 => Just(1u8), 1 => Just(2u8)].prop_map(|fault| Op::RemoveBlock { fault }),
@@ -190,7 +190,9 @@ pub struct StepRes {
 pub fn policy_for_union() -> lightning_signer::policy::simple_validator::SimplePolicy {
     let mut p = lightning_signer::policy::simple_validator::make_default_simple_policy(Network::Testnet);
     p.global_velocity_control = VelocityControlSpec { limit_msat: 1_000_000_000, interval_type: VelocityControlIntervalType::Hourly };
-    p.fee_velocity_control = VelocityControlSpec { limit_msat: 2_000_000, interval_type: VelocityControlIntervalType::Daily };
+    // two ordinary on-chain approvals (150 sat of fees each) fit, the third is refused by the
+    // fee velocity limit: a refusal late in check_onchain_tx
+    p.fee_velocity_control = VelocityControlSpec { limit_msat: 400_000, interval_type: VelocityControlIntervalType::Daily };
     p
 }
 
